@@ -34,18 +34,19 @@ def is_reset(r):
 
 
 def execute(ck, test, env, name, overlay=None, timeout=900):
+    # mutation controls / candidate repairs: VERIF_C07_OVERLAY=<patched circuit_map.go> replaces the source
+    if overlay is None and os.environ.get("VERIF_C07_OVERLAY"):
+        overlay = {"htlcswitch/circuit_map.go": os.environ["VERIF_C07_OVERLAY"]}
     res = ck.go_test("./htlcswitch/", "^%s$" % test, HARNESS, env=env, name=name, timeout=timeout,
                      extra_overlay=overlay)
     trace = os.path.join(res["dir"], "trace.ndjson")
     if not os.path.exists(trace) or os.path.getsize(trace) == 0:
         raise Inconclusive("executor produced no trace:\n" + res["out"][-3000:])
     recs = core.read_ndjson(trace)
-    if res["rc"] != 0:
-        # the executor itself never judges: a non-zero exit is a dead driver (panic, stuck thread)
-        ck.last_exec_failure = res["out"][-3000:]
-    notes = [r for r in recs if r.get("note")]
-    if notes:
-        raise Inconclusive("executor could not follow its schedule: %s" % str(notes[0])[:400])
+    # the executor never judges.  A step it could not perform is recorded in `note` and rejected by
+    # the trace spec (ConformNote) - after the deviation that caused it.  A dead driver (panic,
+    # stuck thread) leaves a truncated trace: inconclusive unless the validator finds a deviation.
+    ck.exec_dead = res["out"][-3000:] if res["rc"] != 0 else None
     return res, recs
 
 
@@ -56,6 +57,9 @@ def validate(ck, recs, consts, name, what, expect_ok=True):
     v = ck.validate(SPEC, "CircuitMapTrace", "CircuitMapTrace.cfg", p, constants=consts, name=name)
     if v["ok"] or not expect_ok:
         return v
+    if v["invariant"] == "invariant ConformNote":
+        bad = recs[min((v["line"] or 1) - 1, len(recs) - 1)]
+        raise Inconclusive("executor could not follow a schedule that conformed so far (harness problem): %s" % str(bad)[:500])
     a, b = core.slice_trace(recs, v["line"] or 1, is_reset)
     one = os.path.join(ck.out, name + "_failing_trace.ndjson")
     core.write_ndjson(one, recs[a:b])
@@ -67,6 +71,11 @@ def validate(ck, recs, consts, name, what, expect_ok=True):
                      what, v["invariant"], v["line"], str({k: bad.get(k) for k in ("a", "t", "ins", "outs", "c", "ok", "err", "adds", "drops", "fails")})[:400]),
                  files={"trace.ndjson": one, "schedule.ndjson": sched}, text=v["cex"])
     return v
+
+
+def dead_driver_check(ck, all_ok):
+    if all_ok and getattr(ck, "exec_dead", None):
+        raise Inconclusive("executor died although everything it recorded conforms:\n" + ck.exec_dead)
 
 
 def negative_control(ck, recs, consts):
@@ -208,6 +217,7 @@ def run(ck):
     total += sum(1 for r in recs if is_reset(r))
     ck.cov["evaluations"] += len(recs) - total
     ck.cov["distinct_nontrivial"] += distinct_behaviours(recs)
+    dead_driver_check(ck, ok_all)
     if ok_all:
         negative_control(ck, recs, tconsts)
     ck.cov["samples"].append({"generated": [
@@ -222,8 +232,11 @@ def run(ck):
                                VERIF_C07_THREADS=rthr, VERIF_C07_BATCH=rbatch,
                                VERIF_C07_RUNS=runs, VERIF_C07_STEPS=steps), "exec_random")
     rconsts = dict(universe_consts(rin, rout, rids, rthr, rbatch), **base)
+    ok2 = True
     for bi, batch in enumerate(core.split_batches(recs2, is_reset, 6_000_000)):
-        validate(ck, batch, rconsts, "val_random_%d" % bi, "seeded random schedule (seed %d)" % ck.seed)
+        v = validate(ck, batch, rconsts, "val_random_%d" % bi, "seeded random schedule (seed %d)" % ck.seed)
+        ok2 = ok2 and v["ok"]
+    dead_driver_check(ck, ok2)
     n2 = sum(1 for r in recs2 if is_reset(r))
     total += n2
     ck.cov["evaluations"] += len(recs2) - n2
